@@ -455,7 +455,8 @@ impl C04 {
             let Some(ti) = c.idx(ta_slot) else { continue };
             let ta_key = v.ix.accounts[ti].pubkey;
             let ta_owner = v.pre.get(&ta_key).map(|a| a.owner).unwrap_or(ix::tok());
-            for n in [0u64, 1, 2] {
+            // (0, 1, 2 and amounts that read as 1 when only their low 8 / 16 / 32 bits are looked at, and the largest amount)
+            for n in [0u64, 1, 2, (1 << 8) + 1, (1 << 16) + 1, (1 << 32) + 1, u64::MAX] {
                 let mut f = base.clone();
                 set_delegate(&mut f, &ta_key, &attacker, n);
                 let mut ixn = v.ix.clone();
